@@ -18,6 +18,7 @@ func init() {
 	vpRegister("VPH_C13_record_read", VPH_C13_record_read)
 	vpRegister("VPH_C13_record_write", VPH_C13_record_write)
 	vpRegister("VPH_C13_record_limit", VPH_C13_record_limit)
+	vpRegister("VPH_C13_record_limit_total", VPH_C13_record_limit_total)
 }
 
 // vpAllocGuard runs f and asserts that it allocated at most max bytes. In the
@@ -263,7 +264,7 @@ func VPH_C13_authsys() {
 	if vpTier() == 1 {
 		G = 16
 	}
-	which := vpChoose("case", 0, 1)
+	which := vpChoose("case", 0, 2)
 	stamp, uid, gid := vpU32("stamp"), vpU32("uid"), vpU32("gid")
 	machine := vpBytes("machine", vpChoose("mlen", 0, 5))
 	if which == 0 {
@@ -282,6 +283,16 @@ func VPH_C13_authsys() {
 			vpAssert(c.AuxGIDs[i] == aux[i], "aux")
 		}
 		vpReach("roundtrip")
+	} else if which == 2 {
+		// 17 or more auxiliary gids that are really there (the body is long enough): still refused
+		naux := vpChoose("naux-over", 17, 20)
+		aux := make([]uint32, naux)
+		for i := range aux {
+			aux[i] = vpU32("aux")
+		}
+		_, err := ParseAuthSysCredential(vpAuthSysBody(stamp, string(machine), uid, gid, aux))
+		vpAssert(err != nil, "more-than-16-gids-present-rejected")
+		vpReach("too-many-gids-present")
 	} else {
 		// more than 16 auxiliary gids: refused before the list is allocated
 		cnt := vpU32("cnt")
@@ -373,4 +384,39 @@ func VPH_C13_record_limit() {
 	var err error
 	vpAllocGuard(DefaultMaxRecordSize, func() { _, err = rm.ReadRecord() })
 	vpAssert(err != nil, "over-limit-record-rejected")
+}
+
+// VPH_C13_record_limit_total: the record limit applies to the reassembled record, not to each
+// fragment: with a small limit M and up to three fragments whose bytes are all present, the record
+// is returned exactly when the total fits and refused when it does not (no record longer than M is
+// ever handed out).
+func VPH_C13_record_limit_total() {
+	M := vpChoose("limit", 1, 5)
+	nf := vpChoose("frags", 1, 3)
+	var stream vpBuf
+	var all []byte
+	for f := 0; f < nf; f++ {
+		l := vpChoose("fraglen", 0, M)
+		d := vpBytes("frag", l)
+		h := uint32(l)
+		if f == nf-1 {
+			h |= LastFragmentFlag
+		}
+		stream.u32(h).raw(d)
+		all = append(all, d...)
+	}
+	rm := NewRecordMarkingReader(bytes.NewReader(stream.Bytes()))
+	rm.MaxRecordSize = M
+	got, err := rm.ReadRecord()
+	if len(all) <= M {
+		vpReach("total-within-limit")
+		vpAssert(err == nil, "record-within-limit-accepted")
+		vpAssert(bytes.Equal(got, all), "record-within-limit-reassembled")
+	} else {
+		vpReach("total-over-limit")
+		vpAssert(err != nil, "record-over-limit-in-small-fragments-rejected")
+	}
+	if err == nil {
+		vpAssert(len(got) <= M, "no-record-longer-than-the-limit")
+	}
 }
